@@ -2,10 +2,10 @@
    Only statements, closed by `exact` (short glue allowed), each followed by Print Assumptions.
    Model: Graph/Heap.v (node heap, WF), Graph/Ops.v (LinkedGraph methods), Graph/OpsSpec.v
    (set-level specification, domain guards, agree / holds_b).
-   Proofs: Graph/OpsBase.v OpsDfs.v OpsProofs.v OpsProofs2.v OpsChar.v OpsAcyclic.v OpsRefine.v. *)
+   Proofs: Graph/OpsBase.v OpsDfs.v OpsProofs.v OpsProofs2.v OpsChar.v OpsAcyclic.v OpsRefine.v OpsOracle.v. *)
 From Coq Require Import List Bool Arith.
 From GolemV Require Import Graph.Heap Graph.Ops Graph.OpsSpec Graph.OpsBase Graph.OpsDfs Graph.OpsProofs
-  Graph.OpsProofs2 Graph.OpsChar Graph.OpsAcyclic Graph.OpsRefine.
+  Graph.OpsProofs2 Graph.OpsChar Graph.OpsAcyclic Graph.OpsRefine Graph.OpsOracle.
 Import ListNotations.
 
 (* ---------------------------------------------------------------- the oracle decides the stated notions *)
@@ -140,6 +140,23 @@ Theorem C04_check_is_agree_and_holds : forall s o ob, exists rest,
   check s o ob = (agree s o ob && negb (declined s o && in_domain s o)) :: holds_b s o ob :: rest.
 Proof. exact check_spec. Qed.
 Print Assumptions C04_check_is_agree_and_holds.
+
+(* the oracle asks no more than the theorems give: on the model's own result holds_b is true for
+   every operation with a proved refinement, its WF / acyclicity clauses for every operation, and
+   the model never raises inside the domain *)
+Theorem C04_model_satisfies_holds_b : forall s o s', refined_op o = true -> run_op s o = Ok s' ->
+  holds_b s o (OOk (fst s') (snd s')) = true.
+Proof. exact model_holds. Qed.
+Print Assumptions C04_model_satisfies_holds_b.
+
+Theorem C04_model_wf_acyclic_clauses : forall s o s', in_domain s o = true -> run_op s o = Ok s' ->
+  holds_wf (fst s') (snd s') = true /\ holds_acyclic s o (fst s') (snd s') = true.
+Proof. exact model_wf_acyclic. Qed.
+Print Assumptions C04_model_wf_acyclic_clauses.
+
+Theorem C04_model_never_raises_in_domain : forall s o e, in_domain s o = true -> run_op s o <> Raise e.
+Proof. exact model_never_raises_in_domain. Qed.
+Print Assumptions C04_model_never_raises_in_domain.
 
 (* ---------------------------------------------------------------- T1.5  GraphDelegate *)
 Theorem C04_delegate_forwards : forall s o, gd_run_op s o = run_op s o.
